@@ -212,6 +212,18 @@ func runC05(res *Result, tier string, seed int64, replay string) {
 			d := fontHeavyDoc(NewRng(seed, fmt.Sprintf("c05/%d", i)), i)
 			docs = append(docs, doc{fmt.Sprintf("gen:%d", i), d.MJML(), d})
 		}
+		// columns with many children, each the first user of another web font (work split over goroutines would show as a
+		// different order of the font imports), and sections with many columns
+		for k, nkids := range []int{8, 12, 20, 40} {
+			fams := []string{"Roboto", "Lato", "Open Sans", "Ubuntu", "Montserrat", "Droid Sans", "Raleway", "Oswald"}
+			var kids, cols strings.Builder
+			for j := 0; j < nkids; j++ {
+				fmt.Fprintf(&kids, `<mj-text font-family="%s">t%d</mj-text>`, fams[(j*3+k)%len(fams)], j)
+				fmt.Fprintf(&cols, `<mj-column><mj-button font-family="%s" href="u">b%d</mj-button></mj-column>`, fams[(j*5+k)%len(fams)], j)
+			}
+			docs = append(docs, doc{fmt.Sprintf("wide:column-%d", nkids), "<mjml><mj-body><mj-section><mj-column>" + kids.String() + "</mj-column></mj-section></mj-body></mjml>", nil})
+			docs = append(docs, doc{fmt.Sprintf("wide:section-%d", nkids), "<mjml><mj-body><mj-section>" + cols.String() + "</mj-section><mj-hero>" + kids.String() + "</mj-hero></mj-body></mjml>", nil})
+		}
 		// "regardless of what was compiled before": pairs of documents that differ in one class of head content only (the same
 		// body, the same author HTML, other mj-attributes / mj-class / inline rules / fonts …) — state kept from one compilation
 		// under a key that misses the differing part shows when the two are compiled in the other order
@@ -244,7 +256,11 @@ func runC05(res *Result, tier string, seed int64, replay string) {
 					Input: map[string]string{"source": d.src}})
 			}
 		}
-		for k := 0; k < reps; k++ {
+		nrep := reps
+		if strings.HasPrefix(d.name, "wide:") {
+			nrep = reps * 15
+		}
+		for k := 0; k < nrep; k++ {
 			h2, err2 := mjml.Render(d.src)
 			e2 := ""
 			if err2 != nil {
@@ -530,18 +546,21 @@ var apiDocs = []string{
 	// parses, but rendering the body fails half way (mj-carousel without images): whatever a failed compilation leaves
 	// behind (buffers, pools, counters) must not reach the next one
 	`<mjml><mj-body><mj-section><mj-column><mj-text>before</mj-text><mj-carousel></mj-carousel></mj-column></mj-section></mj-body></mjml>`,
+	// spellings XML does not distinguish: white space before '>' and around '=', single quotes, an attribute on mj-attributes and
+	// mj-head, a comment inside the head — paths that look at the source TEXT instead of the tree would treat them differently
+	"<mjml ><mj-head\n><mj-attributes ><mj-all font-family = 'Lato' /><mj-text\n color='#ff0000' font-size=\"20px\"/><mj-class name='m1' font-weight=\"700\" /></mj-attributes ><!-- c --><mj-title >T</mj-title ></mj-head ><mj-body ><mj-section ><mj-column ><mj-text mj-class = 'm1' >A</mj-text ></mj-column ></mj-section ></mj-body ></mjml >",
 }
 
 var (
-	apiOkBits    = "11101112" // 2 = parses, rendering fails
-	apiValBits   = "00001000"
-	apiStateBits = "00000000" // no document's tree carries render-to-render state (after the carousel-CSS fix)
-	apiAttrs     = "1,2,0,0,3,0,0,0"
+	apiOkBits    = "111011121" // 2 = parses, rendering fails
+	apiValBits   = "000010000"
+	apiStateBits = "000000000" // no document's tree carries render-to-render state (after the carousel-CSS fix)
+	apiAttrs     = "1,2,0,0,3,0,0,0,4"
 )
 
 // one pair of documents per class of head difference (shared with C07): history independence must hold across each of them
 func init() {
-	next := 4
+	next := 5
 	for _, cl := range isoClasses() {
 		for _, d := range []string{cl.a, cl.b} {
 			apiDocs = append(apiDocs, d)
